@@ -138,8 +138,14 @@ func c10Execute(sc *C10Scenario, failAt int) (ex *c10Exec, v *nodeViolation) {
 	}
 	// finish: let the node converge so that the log also covers the tail of the sync
 	for r := 0; r < 12+2*len(tree.ByName) && r < 400; r++ {
+		if sn.blockThreadDead != "" || len(store.Log) > 6000 {
+			// the block thread ended (the real node would restart its connection): a node that is not
+			// in sync polls for headers with every message it gets, and the peer answers every poll,
+			// so "deliver until nothing is pending" would never end
+			break
+		}
 		moved := false
-		for len(peer.toNode) > 0 {
+		for k := 0; len(peer.toNode) > 0 && k < 60; k++ {
 			deliver(0)
 			moved = true
 			for sn.blockStep() {
